@@ -6,7 +6,7 @@ import numpy as np
 import torch
 
 from . import project, algrun
-from .g3run import rand_tt, raw_tt, rel_err, mk_problem, check_tt, check_operands, U64
+from .g3run import opt_kwargs, quiet, rand_tt, raw_tt, rel_err, mk_problem, check_tt, check_operands, U64
 
 TOL_C14 = 20.0
 
@@ -28,6 +28,7 @@ def run_cross(st, opts):
     # "sweep2": a sweep budget of two (documented optional nswp) with an over-parameterised random start: two full sweeps of
     # the two-site scheme with exact supercore evaluation recover a target of rank <= 4 (measured on every configuration)
     kw = {"nswp": 2} if cfg["guess"] == "sweep2" else ({"nswp": 1} if cfg["guess"] == "sweep1" else {})
+    kw.update(opt_kwargs(cfg["op"], cfg.get("opt")))
     if cfg["guess"] in ("sweep1", "sweep2"):
         g = raw_tt(tt, N, 4, gen, dt)
     if cfg["guess"] in ("fresh", "reused"):
@@ -111,7 +112,8 @@ def run_cross(st, opts):
         snap = algrun.snapshot(objs)
         stats["calls"] += 1
         try:
-            Y = call()
+            with quiet():
+                Y = call()
         except Exception as ex:  # noqa
             problems.append(mk_problem("C14", "exception", cfg, "call %d raised %s: %s" % (it + 1, type(ex).__name__, str(ex)[:200]), st, {"exc": type(ex).__name__}))
             check_operands(cfg, st, tt, objs, snap, names, problems)
